@@ -129,8 +129,7 @@ class FullTrained(ol.Trained):
         os.makedirs(base_dir, exist_ok=True)
         tf = os.path.join(base_dir, "training.txt")
         with open(tf, "wb") as f:
-            for p in cfg["passwords"]:
-                f.write(p.encode(enc, errors="surrogateescape") + b"\n")
+            f.write(ol.training_bytes(cfg["passwords"], None, enc))
         rec = tio.train_inprocess(tf, enc, self.base_dir, coverage=cfg.get("coverage", 0.6), ngram=cfg["ngram"],
                                   alphabet_size=cfg["alphabet_size"], save_sensitive=cfg.get("save_sensitive", False))
         self.rec = rec
@@ -281,8 +280,7 @@ def start_cli(T, name, strings, to_file):
     work = os.path.dirname(T.base_dir)
     inp = os.path.join(work, "score_in.txt")
     with open(inp, "wb") as f:
-        for s in strings:
-            f.write(s.encode(T.cfg["encoding"]) + b"\n")
+        f.write(ol.training_bytes(strings, None, T.cfg["encoding"]))
     outp = os.path.join(work, "score_out.txt") if to_file else None
     env = common.subenv()
     env["PYTHONPATH"] = code
